@@ -99,6 +99,46 @@ type axEnv struct {
 	breakK func() skel
 	labels map[string]func() skel
 	recvN  string // name of the receiver variable in this function (s)
+	locals map[string]bool // locals of this function that hold a value of their own (`opts := *s.nsqadmin.getOpts()`)
+}
+
+func (e axEnv) withLocal(k string) axEnv {
+	m := make(map[string]bool, len(e.locals)+1)
+	for a := range e.locals {
+		m[a] = true
+	}
+	m[k] = true
+	e.locals = m
+	return e
+}
+
+func rootIdent(e ast.Expr) *ast.Ident {
+	for {
+		switch v := e.(type) {
+		case *ast.Ident:
+			return v
+		case *ast.SelectorExpr:
+			e = v.X
+		case *ast.IndexExpr:
+			e = v.X
+		case *ast.StarExpr:
+			e = v.X
+		case *ast.ParenExpr:
+			e = v.X
+		default:
+			return nil
+		}
+	}
+}
+
+// ownLocal: the target of an assignment lives in a local that is a copy (not an alias of the request / options).
+func (e axEnv) ownLocal(l ast.Expr) bool {
+	id := rootIdent(l)
+	if id == nil {
+		return false
+	}
+	_, aliased := e.subst[id.Name]
+	return e.locals[id.Name] && !aliased
 }
 
 func (e axEnv) withSubst(k, v string) axEnv {
@@ -218,6 +258,10 @@ func (x *axCtx) collect(env axEnv, n ast.Node, inLoop bool) (effs []*effCall, op
 			for _, a := range v.Args {
 				walk(a)
 			}
+			if why := x.reqWrite(env, v); why != "" {
+				opaqueM = append(opaqueM, why)
+				return
+			}
 			ec, fd := x.classifyCall(env, v, inLoop)
 			if ec != nil {
 				effs = append(effs, ec)
@@ -260,6 +304,104 @@ func (x *axCtx) collect(env axEnv, n ast.Node, inLoop bool) (effs []*effCall, op
 	return
 }
 
+// ---------------------------------------------------------------- writes to the request / the options
+//
+// The admin check reads `req.Header` and the options. A handler that changes either before the
+// check (`req.Header.Set(acl, …)`, `req.Header[k] = …`, `opts.AdminUsers = nil`, handing `req` to a
+// function the extractor cannot see into) decides the outcome of the check itself: such a statement
+// is never summarised, it becomes `Skel.unknown`.
+
+// reqReadOnly: methods reachable from `req` that do not change what the admin check reads.
+var reqReadOnly = []string{"req.Header.Get", "req.Header.Values", "req.Header.Clone", "req.URL.Query", "req.URL.String",
+	"req.URL.EscapedPath", "req.URL.RequestURI", "req.UserAgent", "req.BasicAuth", "req.Context", "req.Cookie",
+	"req.Cookies", "req.Referer", "req.FormValue", "req.PostFormValue", "req.ParseForm", "req.Body.Close", "req.Body.Read",
+	"req.ProtoAtLeast"}
+
+// reqSafeCallees: functions outside the package that may be handed `req` (they read the query and the body).
+var reqSafeCallees = []string{"http_api.NewReqParams"}
+
+// reqHandles: argument texts through which a callee could change the request.
+func reqHandle(t string) bool {
+	t = strings.TrimPrefix(t, "&")
+	t = strings.TrimPrefix(t, "*")
+	switch t {
+	case "req", "req.Header", "req.URL", "req.Form", "req.PostForm", "req.Trailer", "req.MultipartForm":
+		return true
+	}
+	return false
+}
+
+// stateLhs: is an assignment target part of the request or of the options / server state?
+func stateLhs(t string) string {
+	t = strings.TrimLeft(t, "*&(")
+	switch {
+	case t == "req" || strings.HasPrefix(t, "req.") || strings.HasPrefix(t, "req["):
+		return "request"
+	case strings.HasPrefix(t, "opts.") || strings.Contains(t, "getOpts()") || strings.HasPrefix(t, "s.nsqadmin.") || t == "s.nsqadmin":
+		return "options"
+	case strings.HasPrefix(t, "s.") && !strings.HasPrefix(t, "s.nsqadmin"):
+		return "server"
+	}
+	return ""
+}
+
+// reqWrite: does this call (possibly) change the request? "" = no.
+func (x *axCtx) reqWrite(env axEnv, c *ast.CallExpr) string {
+	fn := x.text(env, c.Fun)
+	if strings.HasPrefix(fn, "req.") {
+		ok := false
+		for _, r := range reqReadOnly {
+			if fn == r || strings.HasPrefix(fn, r+"().") || strings.HasPrefix(fn, r+"(") {
+				ok = true
+			}
+		}
+		if !ok {
+			return "request-modifying " + fn
+		}
+	}
+	if fn == "delete" && len(c.Args) > 0 && stateLhs(x.text(env, c.Args[0])) != "" {
+		return "request-modifying delete(" + x.text(env, c.Args[0]) + ")"
+	}
+	for _, a := range c.Args {
+		at := x.text(env, a)
+		if !reqHandle(at) {
+			continue
+		}
+		if fn == "s."+x.auth {
+			continue
+		}
+		safe := false
+		for _, r := range reqSafeCallees {
+			if fn == r {
+				safe = true
+			}
+		}
+		if safe {
+			continue
+		}
+		// receiver methods are inlined or scanned (methodIsPure); package-level functions are scanned (funcIsPure)
+		if strings.HasPrefix(fn, "s.") && !strings.Contains(strings.TrimPrefix(fn, "s."), ".") {
+			if _, ok := x.methods[strings.TrimPrefix(fn, "s.")]; ok {
+				continue
+			}
+		}
+		if id, ok := c.Fun.(*ast.Ident); ok {
+			if fd, ok := x.funcs[id.Name]; ok {
+				if x.funcIsPure(fd) {
+					continue
+				}
+				return "request handed to " + fn + ", which is not read-only"
+			}
+		}
+		return "request handed to " + fn
+	}
+	return ""
+}
+
+// writesState: textual scan of a function body for statements that change a request / the options.
+var stateWriteMarks = []string{".Header.Set(", ".Header.Add(", ".Header.Del(", ".Header[", ".Header =", ".SetBasicAuth(", ".AddCookie(",
+	".AdminUsers =", ".ACLHTTPHeader =", ".AdminUsers[", "swapOpts", ".Form.Set(", ".URL =", "*req =", "*r ="}
+
 var pureMemo = map[*ast.FuncDecl]int{}
 
 // funcIsPure: a package-level function whose body mentions no tracked effect.
@@ -270,7 +412,7 @@ func (x *axCtx) funcIsPure(fd *ast.FuncDecl) bool {
 	pureMemo[fd] = 1 // recursion: optimistic
 	txt := exprText(x.p.Fset, fd.Body)
 	pure := true
-	for _, bad := range []string{".ci.", ".client.", "http.Get", "http.Post", "http.NewRequest", ".Do(", "swapOpts", ".notifications", "clusterinfo.New"} {
+	for _, bad := range append([]string{".ci.", ".client.", "http.Get", "http.Post", "http.NewRequest", ".Do(", "swapOpts", ".notifications", "clusterinfo.New"}, stateWriteMarks...) {
 		if strings.Contains(txt, bad) {
 			pure = false
 		}
@@ -303,7 +445,7 @@ func (x *axCtx) methodIsPure(fd *ast.FuncDecl) bool {
 		return true
 	}
 	txt := exprText(x.p.Fset, fd.Body)
-	for _, bad := range []string{".ci.", ".client.", "http.", ".Do(", "swapOpts", ".notifications", x.auth, "req.Body"} {
+	for _, bad := range append([]string{".ci.", ".client.", "http.", ".Do(", "swapOpts", ".notifications", x.auth, "req.Body"}, stateWriteMarks...) {
 		if strings.Contains(txt, bad) {
 			return false
 		}
@@ -434,7 +576,22 @@ func (x *axCtx) classifyCond(env axEnv, t string) (lean string, neg bool, konst 
 		f := t[len("len(body.") : len(t)-len(") > 0")]
 		return "(.bodyFieldNonEmpty " + leanStr(f) + ")", false, 0
 	}
+	if x.identityText(t) {
+		return "(.identityDep " + leanStr(t) + ")", false, 0
+	}
 	return "(.other " + leanStr(t) + ")", false, 0
+}
+
+// identityText: does an expression read what the admin check is made of — the request headers, the admin
+// list, the ACL header name, the outcome of the check — other than as the bare check?
+func (x *axCtx) identityText(t string) bool {
+	for _, m := range []string{"req.Header", "opts.AdminUsers", "opts.ACLHTTPHeader", ".AdminUsers", ".ACLHTTPHeader",
+		"s." + x.auth + "(", "req.BasicAuth", "basicAuthUser(", "req.Cookie", "req.Cookies", "req.Referer", "req.UserAgent"} {
+		if strings.Contains(t, m) {
+			return true
+		}
+	}
+	return false
 }
 
 // ---------------------------------------------------------------- statements
@@ -485,7 +642,12 @@ func (x *axCtx) stmts(env axEnv, stmts []ast.Stmt, k func() skel) skel {
 		return memo(func() skel { return x.stmts(e, stmts[1:], k) })
 	}
 	switch v := st.(type) {
-	case *ast.EmptyStmt, *ast.IncDecStmt:
+	case *ast.EmptyStmt:
+		return restOf(env)()
+	case *ast.IncDecStmt:
+		if w := stateLhs(x.text(env, v.X)); w != "" {
+			return sUnknown{w + " modified: " + x.text(env, v.X) + v.Tok.String()}
+		}
 		return restOf(env)()
 	case *ast.LabeledStmt:
 		return x.stmts(env, append([]ast.Stmt{v.Stmt}, stmts[1:]...), k)
@@ -538,6 +700,17 @@ func (x *axCtx) stmts(env axEnv, stmts []ast.Stmt, k func() skel) skel {
 		effs, _ := x.collect(env, v, false)
 		return prependEffs(effs, restOf(env)())
 	case *ast.AssignStmt:
+		for _, l := range v.Lhs {
+			if id, ok := l.(*ast.Ident); ok && v.Tok == token.DEFINE && id.Name != "req" {
+				continue // a new local
+			}
+			if env.ownLocal(l) {
+				continue
+			}
+			if w := stateLhs(x.text(env, l)); w != "" {
+				return sUnknown{w + " modified: " + x.text(env, l) + " " + v.Tok.String() + " …"}
+			}
+		}
 		effs, om := x.collect(env, v, false)
 		if len(om) > 0 {
 			return sUnknown{"call of " + om[0] + " inside an assignment"}
@@ -562,12 +735,59 @@ func (x *axCtx) stmts(env axEnv, stmts []ast.Stmt, k func() skel) skel {
 				e2.okSrc = x.text(env, v.Rhs[0])
 			}
 		}
+		if v.Tok == token.DEFINE {
+			for i, l := range v.Lhs {
+				id, ok := l.(*ast.Ident)
+				if !ok || id.Name == "_" || id.Name == "req" {
+					continue
+				}
+				// a pointer / map alias keeps pointing at the request or the options: only value copies count
+				alias := false
+				if len(v.Rhs) == len(v.Lhs) {
+					rt := x.text(env, v.Rhs[i])
+					_, isStar := v.Rhs[i].(*ast.StarExpr)
+					if simpleExpr(v.Rhs[i]) || (!isStar && (reqHandle(rt) || strings.HasSuffix(rt, "getOpts()") || strings.HasPrefix(rt, "&"))) {
+						alias = true
+					}
+				}
+				if !alias {
+					e2 = e2.withLocal(id.Name)
+					if _, had := e2.subst[id.Name]; had {
+						m := make(map[string]string, len(e2.subst))
+						for a, b := range e2.subst {
+							if a != id.Name {
+								m[a] = b
+							}
+						}
+						e2.subst = m
+					}
+				}
+			}
+		}
 		if len(v.Lhs) == 1 && len(v.Rhs) == 1 {
 			if id, ok := v.Lhs[0].(*ast.Ident); ok && id.Name != "_" && id.Name != "err" {
 				if simpleExpr(v.Rhs[0]) {
 					e2 = e2.withSubst(id.Name, x.text(env, v.Rhs[0]))
+				} else if rt := x.text(env, v.Rhs[0]); x.identityText(rt) {
+					// a variable that holds the outcome of the admin check, or data the check is made of
+					// (`isAdmin := s.isAuthorizedAdminRequest(req)`, `u := req.Header.Get(h)`): conditions on
+					// it are conditions on the identity — keep the expression, not the name
+					if rt == "s."+x.auth+"(req)" || rt == "!s."+x.auth+"(req)" {
+						e2 = e2.withSubst(id.Name, rt)
+					} else {
+						e2 = e2.withSubst(id.Name, "("+rt+")")
+					}
 				} else if _, had := e2.subst[id.Name]; had {
 					e2 = e2.withSubst(id.Name, id.Name+"'")
+				}
+			}
+		}
+		if len(v.Lhs) > 1 && len(v.Rhs) == 1 {
+			if rt := x.text(env, v.Rhs[0]); x.identityText(rt) {
+				for i, l := range v.Lhs {
+					if id, ok := l.(*ast.Ident); ok && id.Name != "_" && id.Name != "err" {
+						e2 = e2.withSubst(id.Name, fmt.Sprintf("(%s)#%d", rt, i))
+					}
 				}
 			}
 		}
@@ -609,6 +829,9 @@ func (x *axCtx) stmts(env axEnv, stmts []ast.Stmt, k func() skel) skel {
 		}
 		ct := x.text(env, v.Cond)
 		bareAuth := ct == "!s."+x.auth+"(req)" || ct == "s."+x.auth+"(req)"
+		if !bareAuth && strings.Contains(ct, "s."+x.auth+"(") {
+			return sUnknown{"admin check inside a compound condition: " + ct}
+		}
 		for _, e := range effs {
 			if e.isAuth && bareAuth {
 				continue
@@ -675,16 +898,27 @@ func (x *axCtx) stmts(env axEnv, stmts []ast.Stmt, k func() skel) skel {
 				case tag == `ps.ByName("opt")` && isLit:
 					out = mkIte("(.optIs "+leanStr(lit)+")", arms[i].body, out)
 				default:
-					out = mkIte("(.other "+leanStr(tag+" == "+x.text(env, ce))+")", arms[i].body, out)
+					ck := ".other "
+					if x.identityText(tag + " == " + x.text(env, ce)) {
+						ck = ".identityDep "
+					}
+					out = mkIte("("+ck+leanStr(tag+" == "+x.text(env, ce))+")", arms[i].body, out)
 				}
 			}
 		}
 		return out
 	case *ast.ForStmt, *ast.RangeStmt:
+		// A loop is summarised: its tracked effects happen zero or more times (`upstreamMany`), and every `return`
+		// inside it is a way out that may or may not be taken (an opaque test per return statement, then the
+		// skeleton of that return). Conditions inside the body are not kept — so a body that looks at the identity
+		// is not summarised at all.
 		bad := false
+		var rets []*ast.ReturnStmt
 		ast.Inspect(v, func(n ast.Node) bool {
 			switch b := n.(type) {
-			case *ast.ReturnStmt, *ast.GoStmt, *ast.DeferStmt:
+			case *ast.ReturnStmt:
+				rets = append(rets, b)
+			case *ast.GoStmt, *ast.DeferStmt:
 				bad = true
 			case *ast.BranchStmt:
 				if b.Tok == token.GOTO {
@@ -696,7 +930,10 @@ func (x *axCtx) stmts(env axEnv, stmts []ast.Stmt, k func() skel) skel {
 			return true
 		})
 		if bad {
-			return sUnknown{"loop with return/goto/go/defer"}
+			return sUnknown{"loop with goto/go/defer"}
+		}
+		if x.identityText(exprText(x.p.Fset, v)) {
+			return sUnknown{"loop whose body reads the identity"}
 		}
 		effs, om := x.collect(env, v, true)
 		if len(om) > 0 {
@@ -707,7 +944,17 @@ func (x *axCtx) stmts(env axEnv, stmts []ast.Stmt, k func() skel) skel {
 				return sUnknown{"admin check inside a loop"}
 			}
 		}
-		return prependEffs(effs, restOf(env)())
+		out := restOf(env)()
+		for i := len(rets) - 1; i >= 0; i-- {
+			var leaf skel
+			if es, om := x.collect(env, rets[i], true); len(es) > 0 || len(om) > 0 {
+				leaf = sUnknown{"effect inside a return inside a loop"}
+			} else {
+				leaf = env.retK(env, rets[i].Results)
+			}
+			out = mkIte("(.other "+leanStr(fmt.Sprintf("loop left by return #%d: %s", i+1, exprText(x.p.Fset, rets[i])))+")", leaf, out)
+		}
+		return prependEffs(effs, out)
 	}
 	return sUnknown{fmt.Sprintf("statement %T", st)}
 }
